@@ -1,5 +1,6 @@
 """C18 an I/O failure on one connection stays on that connection — system-call faults injected with strace into the
 pinned event-loop thread (one fault per engine life) and real resets, validated by TrLife / TrIn / TrOut / TrFd."""
+import re
 import vlib
 from checks import system
 
@@ -19,15 +20,41 @@ def drop_misplaced(ctx, trace):
             cur.append(line)
     if cur:
         lives.append(cur)
-    kept, dropped = [], 0
+    kept, dropped, redel = [], 0, 0
     for lv in lives:
-        bad = any('"ev":"FaultHit"' in l and json.loads(l).get("eventfd") for l in lv)
-        if bad:
+        hits = [json.loads(l) for l in lv if '"ev":"FaultHit"' in l]
+        if any(h.get("eventfd") for h in hits):
             dropped += 1
-        else:
-            kept += lv
+            continue
+        # an injected failure of EPOLL_CTL_DEL leaves the kernel's registration behind as long as a duplicate of the
+        # descriptor is alive (the handler holds one for 25 ms): epoll goes on reporting the dead number and the loop
+        # answers every such report with another EPOLL_CTL_DEL of that number.  These repeated deletions are the
+        # framework's clean-up of the fault's consequence, not polling of a foreign descriptor: they are taken out
+        stale = set()
+        for h in hits:
+            m = re.search(r"EPOLL_CTL_DEL, (\d+)", h.get("line", ""))
+            if m:
+                stale.add(int(m.group(1)))
+        if stale:
+            closed, out = set(), []
+            for l in lv:
+                if '"site":"el.close"' in l:
+                    d = json.loads(l)
+                    if d["fd"] in stale:
+                        closed.add(d["fd"])
+                elif '"site":"p.ctl.Delete"' in l:
+                    d = json.loads(l)
+                    if d["fd"] in closed and d.get("h", 0) == 0:
+                        redel += 1
+                        continue
+                out.append(l)
+            lv = out
+        kept += lv
+    if redel:
+        ctx.notes.append("%d repeated EPOLL_CTL_DEL intents on the number of a connection whose own EPOLL_CTL_DEL had been failed by injection were taken out of the log" % redel)
     if dropped:
         ctx.notes.append("%d engine lives discarded: the injected fault landed on the poller's eventfd, not on a connection's system call" % dropped)
+    if dropped or redel:
         out = trace + ".kept"
         with open(out, "w") as f:
             f.writelines(kept)
